@@ -510,6 +510,7 @@ func instrCanFollow(a, b ssa.Instruction) bool {
 // wherever an ExecutionResult without error is built in a function that holds a decoded WorkDoneMessage, the
 // message's output ID was found non-empty on every path.
 func (c *Ctx) ruleWorkDone(rule string) {
+	c.ruleWorkDoneStep(rule)
 	isMsg := func(t types.Type) bool {
 		if p, ok := t.Underlying().(*types.Pointer); ok {
 			t = p.Elem()
@@ -734,5 +735,126 @@ func codecFieldsSet(v ssa.Value, set map[string]bool, depth int) {
 				}
 			}
 		}
+	}
+}
+
+// R-WORKDONE, step clause (C08 "never reports success for a run whose work-done message did not arrive intact"): a run ID
+// that was damaged into the ID of another run that is waiting looks like that run's result. The message names the step
+// it is the result of. Obligation: every call that hands a decoded WorkDoneMessage to the function that builds the
+// success result is made where, on every path, the message's StepID was found equal to a step ID the client holds (or
+// empty: a peer that does not say) - directly, or as the false outcome of a bool computed from such a comparison.
+func (c *Ctx) ruleWorkDoneStep(rule string) {
+	isMsg := func(t types.Type) bool {
+		if p, ok := t.Underlying().(*types.Pointer); ok {
+			t = p.Elem()
+		}
+		n, ok := t.(*types.Named)
+		return ok && n.Obj().Name() == "WorkDoneMessage"
+	}
+	// the functions that build a success result from a message parameter
+	builders := map[*ssa.Function]bool{}
+	for _, fn := range c.M.SortedFuncs(c.scopePkg("atp")) {
+		has := false
+		for _, p := range fn.Params {
+			if isMsg(p.Type()) {
+				has = true
+			}
+		}
+		if !has {
+			continue
+		}
+		for _, b := range fn.Blocks {
+			for _, in := range b.Instrs {
+				st, ok := in.(*ssa.Store)
+				if !ok || !core.IsNilConst(st.Val) {
+					continue
+				}
+				if fa, ok := st.Addr.(*ssa.FieldAddr); ok && fieldName(fa.X.Type(), fa.Field) == "Error" {
+					if sn := structOf(fa.X.Type()); sn != nil && sn.Obj().Name() == "ExecutionResult" {
+						builders[fn] = true
+					}
+				}
+			}
+		}
+	}
+	stepIDOf := func(v ssa.Value) bool {
+		ld, ok := v.(*ssa.UnOp)
+		if !ok {
+			return false
+		}
+		fa, ok := ld.X.(*ssa.FieldAddr)
+		return ok && isMsg(fa.X.Type()) && fieldName(fa.X.Type(), fa.Field) == "StepID"
+	}
+	var mismatch func(v ssa.Value, d int) bool // v is true exactly where the StepID differs from a step ID (possibly among other conjuncts)
+	mismatch = func(v ssa.Value, d int) bool {
+		if d > 4 {
+			return false
+		}
+		switch x := v.(type) {
+		case *ssa.BinOp:
+			if x.Op != token.NEQ {
+				return false
+			}
+			for _, pr := range [][2]ssa.Value{{x.X, x.Y}, {x.Y, x.X}} {
+				if stepIDOf(pr[0]) {
+					if _, isConst := pr[1].(*ssa.Const); !isConst {
+						return true
+					}
+				}
+			}
+		case *ssa.Phi:
+			for _, e := range x.Edges {
+				if mismatch(e, d+1) {
+					return true
+				}
+			}
+		}
+		return false
+	}
+	est := func(cond core.Cond) bool {
+		if bin, ok := cond.V.(*ssa.BinOp); ok && (bin.Op == token.EQL || bin.Op == token.NEQ) {
+			for _, pr := range [][2]ssa.Value{{bin.X, bin.Y}, {bin.Y, bin.X}} {
+				if stepIDOf(pr[0]) && (bin.Op == token.EQL) == cond.True {
+					return true // equal to a step ID, or to the empty string
+				}
+			}
+			return false
+		}
+		if _, isPhi := cond.V.(*ssa.Phi); isPhi && !cond.True {
+			return mismatch(cond.V, 0)
+		}
+		return false
+	}
+	n := 0
+	for _, fn := range c.M.SortedFuncs(c.scopePkg("atp")) {
+		cnt := 0
+		var hold map[*ssa.BasicBlock]bool
+		for _, b := range fn.Blocks {
+			for _, in := range b.Instrs {
+				call, ok := in.(*ssa.Call)
+				if !ok {
+					continue
+				}
+				sc := call.Call.StaticCallee()
+				if sc == nil || !builders[sc] || builders[fn] {
+					continue
+				}
+				n++
+				cnt++
+				if hold == nil {
+					hold = core.MustHold(fn, est)
+				}
+				k := key(rule, c.M.Key(fn), sprintf("result #%d is built only from a message that names the run's step", cnt))
+				if hold[b] {
+					c.R.Ok(rule, k, c.M.InstrPos(call), "work-done message handed on to become a result", "on every path the message's step ID was found equal to the step the run was started for (or empty)")
+				} else {
+					c.R.Bad(rule, k, c.M.InstrPos(call), "a work-done message becomes a run's result without its step ID having been compared with the run's step",
+						"one changed bit in the run ID of a work-done message makes it the result of another run that is waiting: that run is reported a success with the other step's output, although the message says which step it is the result of")
+				}
+			}
+		}
+	}
+	if n == 0 {
+		c.R.Unresolved(rule, "calls that hand a decoded work-done message to the function that builds the result")
 	}
 }
